@@ -253,18 +253,20 @@ def probe(E, v, base):
     if base is not None:
         mk = (lambda: E(id=2)) if base is OMIT else (lambda: E(id=2, a=base))
         with db_session:
-            o = mk()
+            try: o = mk()
+            except Exception: o = None      # the base value itself is refused: reported by its own 'ctor' case
             def assign():
                 o.a = v
                 return o.a
-            res['assign'] = attempt(assign)
+            if o is not None: res['assign'] = attempt(assign)
             rollback()
         with db_session:
-            o = mk()
+            try: o = mk()
+            except Exception: o = None
             def set_():
                 o.set(a=v)
                 return o.a
-            res['set'] = attempt(set_)
+            if o is not None: res['set'] = attempt(set_)
             rollback()
     with db_session:                      # look-ups against the empty table: validation + parameter conversion only
         def get():
